@@ -30,9 +30,10 @@ theorem delivered_requires_complete_render (cfg : SendCfg) (c : Conn) (idx : Nat
 /-- A message without error is a delivered message. -/
 theorem no_error_means_delivered (cfg : SendCfg) (c : Conn) (idx : Nat) (m : MsgIn)
     (h : (sendOne cfg c idx m false).2.err = none) : (sendOne cfg c idx m false).2.delivered = true := by
-  unfold sendOne at h ⊢
-  simp only [] at h ⊢
+  revert h
+  unfold sendOne
+  simp only []
   repeat' split
-  all_goals simp_all
+  all_goals simp
 
 end GoMail.Props.C03
